@@ -157,7 +157,8 @@ struct ClockLog {
     freqs: Vec<f64>,
     errs: Vec<(NtpDuration, NtpDuration)>,
     status: Vec<NtpLeapIndicator>,
-    stepped: NtpDuration, // sum of all steps: local clock = base + stepped (monotonic time is frozen)
+    stepped: NtpDuration, // sum of all steps
+    mono: NtpDuration,    // monotonic time elapsed (stays 0 in the ClockCtl replays): local clock = base + mono + stepped
     freq: f64,
 }
 
@@ -175,7 +176,8 @@ impl MockClock {
         }
     }
     fn local(&self) -> NtpTimestamp {
-        self.base + self.log.lock().unwrap().stepped
+        let l = self.log.lock().unwrap();
+        self.base + l.mono + l.stepped
     }
 }
 
@@ -188,7 +190,7 @@ impl NtpClock for MockClock {
         let mut l = self.log.lock().unwrap();
         l.freqs.push(freq);
         l.freq = freq;
-        Ok(self.base + l.stepped)
+        Ok(self.base + l.mono + l.stepped)
     }
     fn get_frequency(&self) -> Result<f64, Self::Error> {
         Ok(self.log.lock().unwrap().freq)
@@ -197,7 +199,7 @@ impl NtpClock for MockClock {
         let mut l = self.log.lock().unwrap();
         l.steps.push(offset);
         l.stepped = l.stepped + offset;
-        Ok(self.base + l.stepped)
+        Ok(self.base + l.mono + l.stepped)
     }
     fn disable_ntp_algorithm(&self) -> Result<(), Self::Error> {
         Ok(())
@@ -318,6 +320,7 @@ impl World {
             errs: std::mem::take(&mut l.errs),
             status: std::mem::take(&mut l.status),
             stepped: l.stepped,
+            mono: l.mono,
             freq: l.freq,
         };
         out
@@ -664,6 +667,256 @@ fn run_replay(job: &Value) {
 }
 
 // ------------------------------------------------------------------------------------------------
+// C06: history shapes replayed on the real source controller + clock controller, number classes logged
+// ------------------------------------------------------------------------------------------------
+const BIG: i64 = ((1 << 31) - 2) * UNIT;
+
+fn cls(x: f64, nonneg: bool) -> &'static str {
+    if x.is_nan() {
+        "nan"
+    } else if x.is_infinite() {
+        "inf"
+    } else if nonneg && x < 0.0 {
+        "neg"
+    } else {
+        "ok"
+    }
+}
+
+fn worse(a: &str, b: &str) -> bool {
+    let rank = |x: &str| match x {
+        "ok" => 0,
+        "neg" => 1,
+        "inf" => 2,
+        _ => 3,
+    };
+    rank(b) > rank(a)
+}
+
+struct Classes(std::collections::BTreeMap<&'static str, &'static str>);
+impl Classes {
+    fn new() -> Self {
+        let mut m = std::collections::BTreeMap::new();
+        for f in ["est_offset", "est_variance", "est_freq", "est_freq_variance", "est_delay", "est_wander", "obs_offset", "obs_uncertainty",
+                  "obs_delay", "clk_freq", "clk_step", "clk_est_error", "clk_max_error", "snap_var0", "snap_var1", "snap_var2", "snap_var3",
+                  "snap_dispersion", "snap_delay", "msg_steer"] {
+            m.insert(f, "ok");
+        }
+        Classes(m)
+    }
+    fn put(&mut self, f: &'static str, x: f64, nonneg: bool) {
+        let c = cls(x, nonneg);
+        if worse(self.0[f], c) {
+            self.0.insert(f, c);
+        }
+    }
+}
+
+async fn run_shape(shape: &Value) -> Value {
+    let clock = MockClock::new(0.0);
+    let sync = SynchronizationConfig {
+        minimum_agreeing_sources: 1,
+        single_step_panic_threshold: StepThreshold { forward: None, backward: None },
+        startup_step_panic_threshold: StepThreshold { forward: None, backward: None },
+        accumulated_step_panic_threshold: None,
+        ..SynchronizationConfig::default()
+    };
+    let algo = AlgorithmConfig::default();
+    let mut ctl = KalmanClockController::new(clock.clone(), sync, algo).unwrap();
+    let id = ClockId(7);
+    let mut src = ctl.add_source(id, SourceConfig::default());
+    ctl.source_update(id, true);
+    let mut c = Classes::new();
+    let mut panics: Vec<String> = Vec::new();
+    let mut nanpanic = false;
+    let mut stable = false;
+    let mut clock_calls = 0usize;
+    let mut slew_until: Option<tokio::time::Instant> = None;
+    let mut disp_nan_after_step = false;
+
+    let base = &shape["base"];
+    let reps = shape["reps"].as_u64().unwrap_or(1) as usize;
+    let mut plan: Vec<(String, String, String, String)> = Vec::new();
+    for k in 0..8 {
+        let off = match s(base, "off").as_str() {
+            "alt" => if k % 2 == 0 { "sec".to_string() } else { "secneg".to_string() },
+            x => x.to_string(),
+        };
+        plan.push((off, s(base, "delay"), s(base, "gap"), "zero".to_string()));
+    }
+    for t in shape["tail"].as_array().unwrap() {
+        for _ in 0..reps {
+            plan.push((s(t, "off"), s(t, "delay"), s(t, "gap"), s(t, "disp")));
+        }
+    }
+    let ms = UNIT / 1000;
+    'outer: for (off, delay, gap, disp) in plan {
+        let (gap_fixed, gap_dur) = match gap.as_str() {
+            "ms" => (ms, std::time::Duration::from_millis(1)),
+            "sec" => (UNIT, std::time::Duration::from_secs(1)),
+            _ => ((1 << 17) * UNIT, std::time::Duration::from_secs(1 << 17)),
+        };
+        tokio::time::advance(gap_dur).await;
+        {
+            let mut l = clock.log.lock().unwrap();
+            l.mono = l.mono + NtpDuration::from_fixed_int(gap_fixed);
+        }
+        // a slew that ended in the meantime
+        if let Some(t) = slew_until {
+            if tokio::time::Instant::now() >= t {
+                slew_until = None;
+                match util::catch(|| ctl.time_update()) {
+                    Ok(u) => {
+                        if let Some(cm) = u.source_message {
+                            if let Err(p) = util::catch(|| src.handle_message(cm)) {
+                                panics.push(p);
+                                break 'outer;
+                            }
+                        }
+                    }
+                    Err(p) => {
+                        panics.push(p);
+                        break 'outer;
+                    }
+                }
+            }
+        }
+        let off_fixed = match off.as_str() {
+            "zero" => 0,
+            "unit" => 1,
+            "msneg" => -ms,
+            "sec" => UNIT,
+            "secneg" => -UNIT,
+            "maxpos" => BIG,
+            _ => -BIG,
+        };
+        let delay_fixed = match delay.as_str() {
+            "neg" => -UNIT,
+            "zero" => 0,
+            "min" => 1 << 14,
+            "ms" => ms,
+            "big" => 16 * UNIT,
+            _ => BIG,
+        };
+        let m = InternalMeasurement {
+            delay: NtpDuration::from_fixed_int(delay_fixed),
+            offset: NtpDuration::from_fixed_int(off_fixed),
+            localtime: clock.local(),
+            root_delay: NtpDuration::from_fixed_int(0),
+            root_dispersion: NtpDuration::from_fixed_int(if disp == "max" { BIG } else { 0 }),
+            leap: NtpLeapIndicator::NoWarning,
+            precision: 0,
+        };
+        let msg = match util::catch(|| src.handle_measurement(m)) {
+            Ok(x) => x,
+            Err(p) => {
+                panics.push(p);
+                break;
+            }
+        };
+        match util::catch(|| src.observe()) {
+            Ok(o) => {
+                c.put("obs_offset", o.offset.to_seconds(), false);
+                c.put("obs_uncertainty", o.uncertainty.to_seconds(), true);
+                c.put("obs_delay", o.delay.to_seconds(), true);
+            }
+            Err(p) => {
+                panics.push(p);
+                break;
+            }
+        }
+        let Some(msg) = msg else { continue };
+        let sn = msg.inner;
+        c.put("est_offset", sn.state.offset(), false);
+        c.put("est_variance", sn.state.offset_variance(), true);
+        c.put("est_freq", sn.state.frequency(), false);
+        c.put("est_freq_variance", sn.state.frequency_variance(), true);
+        c.put("est_delay", sn.delay, true);
+        c.put("est_wander", sn.wander, true);
+        if sn.state.frequency_variance() != INITIALIZATION_FREQ_UNCERTAINTY_PROBE {
+            stable = true;
+        }
+        let upd = match util::catch(|| ctl.source_message(id, msg)) {
+            Ok(u) => u,
+            Err(p) => {
+                panics.push(p);
+                break;
+            }
+        };
+        {
+            let mut l = clock.log.lock().unwrap();
+            clock_calls += l.steps.len() + l.freqs.len();
+            for f in l.freqs.drain(..) {
+                c.put("clk_freq", f, false);
+            }
+            for st in l.steps.drain(..) {
+                c.put("clk_step", st.to_seconds(), false);
+            }
+            for (e, mx) in l.errs.drain(..) {
+                c.put("clk_est_error", e.to_seconds(), true);
+                c.put("clk_max_error", mx.to_seconds(), true);
+            }
+            l.status.clear();
+        }
+        if let Some(ts) = upd.time_snapshot {
+            c.put("snap_var0", ts.root_variance_base, true);
+            c.put("snap_var1", ts.root_variance_linear, false);
+            c.put("snap_var2", ts.root_variance_quadratic, true);
+            c.put("snap_var3", ts.root_variance_cubic, true);
+            c.put("snap_delay", ts.root_delay.to_seconds(), true);
+            // what a client is told one second after this update (t >= 0) ...
+            let later = ts.root_variance_base_time + NtpDuration::from_fixed_int(UNIT);
+            match util::catch(|| ts.root_dispersion(later)) {
+                Ok(d) => c.put("snap_dispersion", d.to_seconds(), true),
+                Err(p) => panics.push(p),
+            }
+            // ... and right now on the (possibly just stepped) local clock: after a backward step the elapsed time is
+            // negative, which C06 as stated does not cover; recorded as an observation only
+            let now = clock.local();
+            if util::catch(|| ts.root_dispersion(now)).is_err() {
+                disp_nan_after_step = true;
+            }
+        }
+        if let Some(d) = upd.next_update {
+            slew_until = Some(tokio::time::Instant::now() + d);
+        }
+        if let Some(cm) = upd.source_message {
+            match &cm.inner {
+                KalmanControllerMessageInner::Step { steer } => c.put("msg_steer", *steer, false),
+                KalmanControllerMessageInner::FreqChange { steer, .. } => c.put("msg_steer", *steer, false),
+            }
+            if let Err(p) = util::catch(|| src.handle_message(cm)) {
+                panics.push(p);
+                break;
+            }
+        }
+    }
+    for p in &panics {
+        let l = p.to_lowercase();
+        if l.contains("nan") || l.contains("infinite") {
+            nanpanic = true;
+        }
+    }
+    json!({"cls": c.0, "nanpanic": nanpanic, "panics": panics, "stable": stable, "clock_calls": clock_calls,
+           "disp_nan_after_step": disp_nan_after_step})
+}
+
+// the frequency variance every initial-phase snapshot carries (source.rs INITIALIZATION_FREQ_UNCERTAINTY)
+const INITIALIZATION_FREQ_UNCERTAINTY_PROBE: f64 = 100.0;
+
+fn run_filter(job: &Value) {
+    let shapes = util::read_ndjson(job["input"].as_str().unwrap());
+    let mut out = util::NdjsonOut::create(job["output"].as_str().unwrap());
+    for (n, shape) in shapes.iter().enumerate() {
+        let rt = tokio::runtime::Builder::new_current_thread().enable_time().start_paused(true).build().unwrap();
+        let mut row = rt.block_on(run_shape(shape));
+        row["id"] = json!(n);
+        out.put(&row);
+    }
+    out.finish();
+}
+
+// ------------------------------------------------------------------------------------------------
 #[test]
 fn verif_kalman() {
     let job = util::job();
@@ -671,6 +924,7 @@ fn verif_kalman() {
         "select" => run_select(&job),
         "leap" => run_leap(&job),
         "replay" => run_replay(&job),
+        "filter" => run_filter(&job),
         m => panic!("unknown mode {m}"),
     }
 }
